@@ -7,6 +7,7 @@ PLAN = dict(
              workers=6, timeout_quick=600, timeout_thorough=5400),
         dict(module="MC_ParquetScan", cfg_quick="MC_ParquetScan_quick.cfg", cfg_thorough="MC_ParquetScan.cfg",
              workers=6, timeout_quick=600, timeout_thorough=5400),
+        dict(module="MC_ParquetScan", cfg="MC_ParquetScan_rg22.cfg", workers=6, timeout=5400, tiers=("thorough",)),
     ],
     drive=[dict(bin="c06", args=[])],
     tv=[
